@@ -80,6 +80,13 @@ let run id =
     (match lookup (fun t -> t = ty) r with
      | None -> Printf.printf "%s lk none\n" id
      | Some k -> Printf.printf "%s lk %s\n" id (hexb k))
+  | "ta" ->
+    (* attributes of one HCL block: name, value (0 = null: omitted) *)
+    let n = next_int () in
+    let attrs = times n (fun () -> let a = next_bytes () in let v = next_int () in (a, v)) in
+    (match toAttrs (fun _ v -> if v = 0 then ANull else AVal v) attrs with
+     | None -> Printf.printf "%s ta error\n" id
+     | Some l -> Printf.printf "%s ta %s\n" id (String.concat "," (Stdlib.List.map (fun (a, v) -> hexb a ^ "=" ^ string_of_int v) l)))
   | k -> Printf.printf "%s unknown-kind %s\n" id k
 
 let () =
